@@ -698,7 +698,7 @@ pub fn run(ctx: Ctx) -> ! {
     let mut bounds = vec![];
     for (i, (tag, len, cap)) in plan.into_iter().enumerate() {
         let spec = Spec { snap: snap.clone(), w: w.clone(), al: alphabet_by_tag(tag) };
-        let st = explore(&ctx, &spec, i, tag, len, cap, &mut cov);
+        let st = explore(&ctx, &spec, i, tag, len, cap * cap_scale(), &mut cov);
         executed += st.executed;
         nontrivial += st.nontrivial;
         capped |= st.capped;
